@@ -130,6 +130,10 @@ pub struct Obj {
     /// clear secret the cells are encrypted under
     pub sk: Vec<Vec<i64>>,
     pub base2k: usize,
+    /// compressed GGLWE-like kinds: decompression into a receiver with fewer rows (admitted by `res.dnum() <= other.dnum()`): (rows, cells)
+    pub partial: Option<(usize, Vec<VecZnx<Vec<u8>>>)>,
+    /// scalar metadata that has to survive compression / serialisation (Galois element of automorphism keys)
+    pub meta: Vec<i64>,
 }
 
 fn own(v: &VecZnx<&[u8]>) -> VecZnx<Vec<u8>> {
@@ -160,6 +164,9 @@ pub fn build<B: FullBackend>(m: &Module<B>, p: &EncP, compressed: bool, via_serd
     let mut cells = vec![];
     let mut seeds = vec![];
     let mut bytes = vec![];
+    let mut partial: Option<(usize, Vec<VecZnx<Vec<u8>>>)> = None;
+    let mut meta: Vec<i64> = vec![];
+    let rows_r = 1 + (p.seed_pt % p.dnum as u64) as usize;
     match p.kind {
         Kind::Glwe => {
             let lay = GLWELayout { n: nd, base2k: bb, k: kk, rank: ro };
@@ -212,6 +219,11 @@ pub fn build<B: FullBackend>(m: &Module<B>, p: &EncP, compressed: bool, via_serd
                     }
                 }
                 m.decompress_gglwe(&mut ct, &c);
+                let mut lay_r = lay;
+                lay_r.dnum = Dnum(rows_r as u32);
+                let mut part = GGLWE::alloc_from_infos(&lay_r);
+                m.decompress_gglwe(&mut part, &c);
+                partial = Some((rows_r, (0..rows_r).flat_map(|row| (0..p.rank_in as usize).map(move |col| (row, col))).map(|(row, col)| own(part.at(row, col).data())).collect()));
             } else {
                 m.gglwe_encrypt_sk(&mut ct, &pt, &skp, &enc, &mut xe, &mut xa, scratch.borrow());
             }
@@ -275,6 +287,11 @@ pub fn build<B: FullBackend>(m: &Module<B>, p: &EncP, compressed: bool, via_serd
                     }
                 }
                 m.decompress_glwe_switching_key(&mut ct, &c);
+                let mut lay_r = lay;
+                lay_r.dnum = Dnum(rows_r as u32);
+                let mut part = GLWESwitchingKey::alloc_from_infos(&lay_r);
+                m.decompress_glwe_switching_key(&mut part, &c);
+                partial = Some((rows_r, (0..rows_r).flat_map(|row| (0..p.rank_in as usize).map(move |col| (row, col))).map(|(row, col)| own(part.at(row, col).data())).collect()));
             } else {
                 m.glwe_switching_key_encrypt_sk(&mut ct, &sk_in, &sk_out, &enc, &mut xe, &mut xa, scratch.borrow());
             }
@@ -288,7 +305,8 @@ pub fn build<B: FullBackend>(m: &Module<B>, p: &EncP, compressed: bool, via_serd
             let lay = GLWEAutomorphismKeyLayout { n: nd, base2k: bb, k: kk, rank: ro, dnum, dsize };
             let enc = EncryptionLayout::new(lay, ni).unwrap();
             let mut ct = GLWEAutomorphismKey::alloc_from_infos(&lay);
-            let gal = p.gal.rem_euclid(2 * n as i64) | 1;
+            // any odd representative in (-2N, 2N): negative Galois elements are legal (and must survive serialisation)
+            let gal = (p.gal % (2 * n as i64)) | 1;
             if compressed {
                 let mut c = GLWEAutomorphismKeyCompressed::alloc_from_infos(&lay);
                 m.glwe_automorphism_key_compressed_encrypt_sk(&mut c, gal, &sk_out, seed_xa, &enc, &mut xe, scratch.borrow());
@@ -306,6 +324,16 @@ pub fn build<B: FullBackend>(m: &Module<B>, p: &EncP, compressed: bool, via_serd
                     }
                 }
                 m.decompress_automorphism_key(&mut ct, &c);
+                let mut lay_r = lay;
+                lay_r.dnum = Dnum(rows_r as u32);
+                let mut part = GLWEAutomorphismKey::alloc_from_infos(&lay_r);
+                m.decompress_automorphism_key(&mut part, &c);
+                partial = Some((rows_r, (0..rows_r).flat_map(|row| (0..p.rank_out as usize).map(move |col| (row, col))).map(|(row, col)| own(part.at(row, col).data())).collect()));
+                {
+                    use poulpy_core::layouts::GetGaloisElement;
+                    meta.push(c.p());
+                    meta.push(part.p());
+                }
             } else {
                 m.glwe_automorphism_key_encrypt_sk(&mut ct, gal, &sk_out, &enc, &mut xe, &mut xa, scratch.borrow());
             }
@@ -315,10 +343,12 @@ pub fn build<B: FullBackend>(m: &Module<B>, p: &EncP, compressed: bool, via_serd
                 }
             }
             // the key switches X -> X^gal back to `sk`: its cells are encrypted under aut_{gal^-1}(sk)
+            meta.push(gal);
+            meta.push(ct.p());
             let two_n = 2 * n as u128;
-            let ginv = mod_pow(gal as u128, n as u128 - 1, two_n) as i64;
+            let ginv = mod_pow(gal.rem_euclid(2 * n as i64) as u128, n as u128 - 1, two_n) as i64;
             let sk_aut: Vec<Vec<i64>> = sk.iter().map(|si| automorphism_i64(si, ginv)).collect();
-            return Obj { cells, seeds, bytes, sk: sk_aut, base2k: b };
+            return Obj { cells, seeds, bytes, sk: sk_aut, base2k: b, partial, meta };
         }
         Kind::TensorKey => {
             let lay = GLWETensorKeyLayout { n: nd, base2k: bb, k: kk, rank: ro, dnum, dsize };
@@ -459,5 +489,5 @@ pub fn build<B: FullBackend>(m: &Module<B>, p: &EncP, compressed: bool, via_serd
             }
         }
     }
-    Obj { cells, seeds, bytes, sk, base2k: b }
+    Obj { cells, seeds, bytes, sk, base2k: b, partial, meta }
 }
